@@ -14,6 +14,7 @@
 //   comp_cprb      B active_rows Kb skind Smat Pmat f          (Kb: CRS of row-major BxB blocks)
 //   comp_cprb_upd  B active_rows Kb skind Smat Pmat f upd Kb2
 //   comp_defl      nt A nvec Z0 .. Z{nvec-1} pkind Pmat b x0
+//   comp_pmask     n pattern        (pmask_pattern -> pmask through the real property-tree constructor)
 #include "gen.hpp"
 #include <amgcl/backend/builtin.hpp>
 #include <amgcl/value_type/static_matrix.hpp>
@@ -250,14 +251,12 @@ static Result exec_schur(Cur &c) {
     }
     DM Dd(nu, nu); for (long a = 0; a < nu; ++a) Dd(a, a) = dia[a];
     DM PDU = dmul(dmul(Tpu, Dd), Tup);
-    // does some Kpp row lack a stored diagonal entry although its adjust_p = 1 correction is non-zero?
-    bool missdiag = false;
-    if (in.adj == 1) for (long b = 0; b < np; ++b) {
-        bool fnd = false; for (auto j = in.K.ptr[pi[b]]; j < in.K.ptr[pi[b]+1]; ++j) if (in.K.col[j] == pi[b]) fnd = true;
-        if (!fnd && S.Ld && (*S.Ld)[b] != 0) missdiag = true;
-    }
-    const std::string tagmd = missdiag ? "[adjust1-missing-diag] " : "";
-    if (missdiag) r.tag("adjust1_missing_diag");
+    // rows of Kpp without stored diagonal entry: adjust_p = 1 cannot subtract its correction there, so it must not add
+    // it back in spmv either (fix ce6260a; before it K x = f failed on such inputs)
+    std::vector<bool> ppdiag(np, false); bool missdiag = false;
+    for (long b = 0; b < np; ++b) { for (auto j = in.K.ptr[pi[b]]; j < in.K.ptr[pi[b]+1]; ++j) if (in.K.col[j] == pi[b]) ppdiag[b] = true; if (!ppdiag[b]) missdiag = true; }
+    const std::string tagmd = (missdiag && in.adj == 1) ? "[adjust1-missing-diag] " : "";
+    if (missdiag && in.adj == 1) r.tag("adjust1_missing_diag");
     // (O1) the extracted blocks reassemble to K
     {
         DM Kpp_eff = in.adj == 1 ? ddense(S.P->system_matrix()) : (in.adj == 2 ? ddense(*S.Lm) : ddense(S.P->system_matrix()));
@@ -275,10 +274,11 @@ static Result exec_schur(Cur &c) {
         DM St = dadd(Tpp, dmul(dmul(Tpu, inner), Tup), -1);
         if (!deq(Sx, St)) r.fail(tagmd + "matrix-free S != Kpp - Kpu*U*Kup");
     }
-    // (O5) the matrix handed to the pressure solver is the documented adjustment (duplicate-free input)
+    // (O5) the matrix handed to the pressure solver is the documented adjustment (duplicate-free input; adjust_p = 1
+    //      only on the rows that have a stored diagonal entry to adjust)
     if (crs_nodup(*Kc) && in.adj <= 2) {
         DM Ex = Tpp;
-        if (in.adj == 1) for (long b = 0; b < np; ++b) Ex(b, b) -= PDU(b, b);
+        if (in.adj == 1) for (long b = 0; b < np; ++b) if (ppdiag[b]) Ex(b, b) -= PDU(b, b);
         if (in.adj == 2) Ex = dadd(Tpp, PDU, -1);
         if (!deq(ddense(KppP), Ex)) r.fail(tagmd + "matrix given to PSolver != documented adjust_p form");
     }
@@ -593,8 +593,36 @@ static Result exec_defl(Cur &c) {
     return r;
 }
 
+// pmask_pattern -> pmask through the REAL property-tree constructor of schur_pressure_correction::params
+static bool pattern_ok(const std::string &p) {
+    auto digits = [](const std::string &s) { if (s.empty()) return false; for (char ch : s) if (ch < '0' || ch > '9') return false; return true; };
+    if (p.size() >= 4 && p[0] == '%' && p[1] >= '0' && p[1] <= '9' && p[2] == ':' && digits(p.substr(3))) return atol(p.substr(3).c_str()) > 0;
+    if (p.size() >= 2 && (p[0] == '<' || p[0] == '>')) return digits(p.substr(1));
+    return false;
+}
+static Result exec_pmask(Cur &c) {
+    Result r; long n = c.nat(); std::string pat = c.tok(); c.expect_end();
+    if (n < 0 || !pattern_ok(pat)) throw bad_input("pattern");
+    boost::property_tree::ptree pt; pt.put("pmask_size", n); pt.put("pmask_pattern", pat);
+    try {
+        SPC::params prm(pt);
+        std::vector<long> m(prm.pmask.begin(), prm.pmask.end());
+        r.out = (Line() << m).get();
+        // documented semantics
+        std::vector<long> ex(n, 0);
+        if (pat[0] == '%') { long st = pat[1] - '0', sd = atol(pat.substr(3).c_str()); for (long i = st; i < n; i += sd) ex[i] = 1; }
+        else if (pat[0] == '<') { long k = atol(pat.substr(1).c_str()); for (long i = 0; i < std::min(k, n); ++i) ex[i] = 1; }
+        else { long k = atol(pat.substr(1).c_str()); for (long i = k; i < n; ++i) ex[i] = 1; }
+        if (m != ex) r.fail("pmask_pattern semantics");
+        if (prm.type != 1 || prm.adjust_p != 1 || prm.approx_schur || !prm.simplec_dia) r.fail("defaults changed by the pattern constructor");
+    } catch (const std::exception&) { r.out = "precondition"; if (n > 0) r.fail("pattern constructor threw"); }
+    r.nontrivial = n > 1; r.tag("pmask_pattern"); r.tag(std::string("pat_") + (pat[0] == '%' ? "interleaved" : "contiguous"));
+    return r;
+}
+
 static Result execute(const Toks &t) {
     Cur c(t); const std::string &op = t[0];
+    if (op == "comp_pmask") return exec_pmask(c);
     if (op == "comp_schur") return exec_schur(c);
     if (op == "comp_cpr") return exec_cpr(c, false);
     if (op == "comp_cpr_upd") return exec_cpr(c, true);
@@ -660,6 +688,7 @@ static void gen_schur(Rng &rng, const Opts &o, std::vector<std::string> &lines) 
     if (!exact) { Um = rand_dense(rng, nu, nu); Pm = rand_dense(rng, np, np); }
     Line l; l << "comp_schur" << in.nt << in.type << in.adj << in.approx << in.simplec << in.K << in.pm << Um << Pm << gen_vec(rng, n);
     lines.push_back(l.get());
+    if (in.pat != "-" && rng.coin(1, 3)) { Line q; q << "comp_pmask" << (rng.coin(1, 10) ? rng.range(0, 3) : n) << in.pat; lines.push_back(q.get()); }
 }
 
 // scalar CPR matrix: nb block rows of size B (+ extra inactive rows), sorted rows; diagonal blocks strictly
@@ -761,6 +790,8 @@ static void generate(Rng &rng, const Opts &o, std::vector<std::string> &lines) {
     lines.push_back("comp_schur 1 3 1 0 1 2 2 1 0 1 1 1 1 2 0 1 1 1 1 1 1 1 2 1 1");             // type 3
     lines.push_back("comp_cpr 2 0 3 3 1 0 1 1 1 1 1 2 1 1 0 0 1 1 1 3 1 1 1");                   // n not a multiple of block_size
     lines.push_back("comp_cpr 2 0 2 2 2 1 1 0 2 1 1 1 1 0 0 1 1 1 2 1 1");                       // unsorted row
+    lines.push_back("comp_pmask 5 %12:3");                                                       // two-digit start: the code would read stride 0 and never terminate
+    lines.push_back("comp_pmask 5 =3");                                                          // unknown pattern
     lines.push_back("comp_defl 1 2 2 1 0 1 1 1 1 0 0 0 0 2 1 1 2 0 0");                          // nvec = 0
     lines.push_back("comp_defl 1 2 2 1 0 1 1 1 1 1 3 1 1 1 0 0 0 2 1 1 2 0 0");                  // deflation vector of wrong size
 }
